@@ -175,7 +175,7 @@ impl Monitor for C05 {
         Outcome::Held
     }
     fn workload(&self, w: &Work, emit: &mut dyn FnMut(Case)) -> J {
-        let n = w.share(150_000, 12_000_000);
+        let n = w.share(400_000, 16_000_000);
         let mut rng = w.rng("C05", 1);
         let flagsets = ["", "", "", "i", "m", "s", "x", "q", "ims", "ix", "qi", "imsx", "g", ";g", "i;k", "Q", " ", "ii", "xq", ";", "a", "\u{10400}"];
         for _ in 0..n {
@@ -360,7 +360,7 @@ impl Monitor for C06 {
         }
         desc.set("exhaustive_small", J::obj().with("patterns_total", J::u(idx)).with("patterns_this_shard", J::u(mine)).with("inputs", J::u(inputs.len() as u64)));
         // (b) dedicated generator inside the bounds
-        let n = w.share(120_000, 6_000_000);
+        let n = w.share(600_000, 12_000_000);
         let mut rng = w.rng("C06", 1);
         let mut made = 0u64;
         while made < n {
@@ -508,7 +508,7 @@ impl Monitor for C07 {
         }
         desc.set("exhaustive_flags", J::obj().with("max_len", J::u(3)).with("alphabet", J::s("s m i x q ; g k a S space")).with("strings_total", J::u(idx)).with("strings_this_shard", J::u(mine)).with("exhaustive", J::Bool(true)));
         // (a) + (b)
-        let n = w.share(60_000, 3_000_000);
+        let n = w.share(300_000, 8_000_000);
         let mut rng = w.rng("C07", 1);
         let mut cfg = GenCfg::std(&['a', 'b', 'A', '1', ' ', '-', '^', ']', '{', '\u{10400}']);
         cfg.quant_pct = 50;
